@@ -61,7 +61,11 @@ def case_history(case):
         g = op.get("group")
         if op["op"] == "add":
             paths = [t for _, t in op["list"]]
-            cp.paths_manager.add_named_paths(name=g, paths=paths)
+            try:
+                cp.paths_manager.add_named_paths(name=g, paths=paths)
+            except Exception as e:  # noqa: BLE001
+                res["oracle"].append({"what": f"add_named_paths raised {e.__class__.__name__}", "step": step, "group": g})
+                break
             current[g] = op["list"]
         elif op["op"] == "remove":
             cp.paths_manager.remove_named_paths(g)
@@ -78,7 +82,11 @@ def case_history(case):
                 continue
             lst = current[gg]
             texts = [t for _, t in lst]
-            got = pm.get_named_paths(gg)
+            try:
+                got = pm.get_named_paths(gg)
+            except Exception as e:  # noqa: BLE001
+                res["oracle"].append({"what": f"get_named_paths raised {e.__class__.__name__} for a group that was added", "step": step, "group": gg})
+                continue
             if got is None or [x.strip() for x in got] != [t.strip() for t in texts]:
                 res["oracle"].append({"what": "get_named_paths does not return the csvpaths that were added, in order",
                                       "step": step, "group": gg, "got": got, "want": texts})
@@ -136,22 +144,29 @@ def gen_history(seed, i, maxlen=5):
     r = rng(seed, "paths", i)
     ops = []
     lists = {}
+    older = {}   # group -> lists it held before (reverting to one of them is a change like any other)
+
+    def replace(g, lst):
+        if g in lists:
+            older.setdefault(g, []).append(lists[g])
+        lists[g] = lst
+        ops.append({"op": "add", "group": g, "list": lst})
+
     for _ in range(r.randint(1, maxlen)):
         k = r.random()
         g = r.choice(GROUPS)
-        if k < 0.45 or g not in lists:
-            lst = gen_list(r)
-            lists[g] = lst
-            ops.append({"op": "add", "group": g, "list": lst})
-        elif k < 0.6:
+        if g not in lists or k < 0.4:
+            replace(g, gen_list(r))                              # first add / new content
+        elif k < 0.55:
             ops.append({"op": "add", "group": g, "list": lists[g]})  # identical re-add
+        elif k < 0.75 and older.get(g):
+            replace(g, r.choice(older[g]))                       # back to earlier content (A, B, A)
         elif k < 0.75:
-            lst = gen_list(r)
-            lists[g] = lst
-            ops.append({"op": "add", "group": g, "list": lst})  # replace
+            replace(g, gen_list(r))
         elif k < 0.88:
             ops.append({"op": "remove", "group": g})
             lists.pop(g, None)
+            older.pop(g, None)
         else:
             ops.append({"op": "new"})
     return {"ops": ops}
